@@ -22,7 +22,7 @@ SCENARIOS = {
         "modules": ["C01", "C01Checker", "C01Examples", "Unconditional", "Reachable"],
         "theorems": ["C01_reader_reachable", "C01_forest", "C01_invariant", "C01_checker_accepts", "C01_build", "C01_build_any", "C01_history",
                      "C01_checker_sound", "C01_inv_add", "C01_inv_append", "C01_inv_del", "C01_inv_clear"],
-        "quick": [hist("c01", 60, extra=T1), hist("c01", 15), hist("c14", 8, extra=T1)],
+        "quick": [hist("c01", 150, extra=T1), hist("c01", 30), hist("c14", 12, extra=T1)],
         "thorough": [hist("c01", 1200, "thorough", extra=T1), hist("c01", 300, "thorough"), hist("c14", 60, "thorough", extra=T1)],
         "counts": ["C01"],
     },
@@ -30,7 +30,7 @@ SCENARIOS = {
         "modules": ["C04", "C04Build", "C04Split", "Unconditional", "Reachable"],
         "theorems": ["C04_createSplit_length", "C04_createSplit_length_bq", "C04_normal_lengths_reachable", "C04_selfLookup_reachable_split", "C04_selfLookup_reachable_given_lengths", "C04_selfLookup_reachable_bq", "C04_stored_length_reachable", "C04_routed_all_histories", "C04_routed", "C04_checker", "C04_selfLookup", "C04_selfLookup_symm", "C04_selfLookup_by_item", "C04_routed_meaning", "C04_readerFirst_spec",
                      "C04_side_eq_readerFirst"],
-        "quick": [hist("c04", 50, extra=T1), hist("c04", 8, extra=CH)],
+        "quick": [hist("c04", 120, extra=T1), hist("c04", 10, extra=CH)],
         "thorough": [hist("c04", 1200, "thorough", extra=T1), hist("c04", 300, "thorough"), hist("c04", 80, "thorough", extra=CH)],
         "counts": ["C04"],
     },
@@ -38,7 +38,7 @@ SCENARIOS = {
         "modules": ["C05", "C05Build", "Reachable"],
         "theorems": ["C05_bq_readback", "C05_build_preserves", "C05_add", "C05_append", "C05_del", "C05_clear", "C05_contains", "C05_vector", "C05_readback_f32",
                      "C05_iter", "C05_isEmpty", "C05_refines", "C05_bq_readback_given_roundtrip"],
-        "quick": [hist("c05", 60, extra=T1)],
+        "quick": [hist("c05", 120, extra=T1)],
         "thorough": [hist("c05", 1500, "thorough", extra=T1), hist("c05", 200, "thorough")],
         "counts": ["C05"],
     },
@@ -46,7 +46,7 @@ SCENARIOS = {
         "modules": ["C06", "C06Build"],
         "theorems": ["C06_build_clears_marks", "C06_open_char", "C06_needBuild_char", "C06_marks", "C06_noop", "C06_clear", "C06_frame",
                      "C06_names_distinct", "C06_wrong_metric"],
-        "quick": [hist("c06", 60, extra=T1)],
+        "quick": [hist("c06", 150, extra=T1)],
         "thorough": [hist("c06", 1500, "thorough", extra=T1), hist("c06", 200, "thorough")],
         "counts": ["C06"],
     },
@@ -54,7 +54,7 @@ SCENARIOS = {
         "modules": ["C02", "Reachable"],
         "theorems": ["C02_exact_reachable", "C02_bruteforce_reachable", "C02_exact", "C02_exact_usizeMax", "C02_exact_saturated", "C02_spec", "C02_unique", "C02_exact_bruteforce",
                      "C02_by_vector", "C02_by_item"],
-        "quick": [hist("c02", 50, extra=T1), hist("c02", 10), hist("c14", 8, extra=T1)],
+        "quick": [hist("c02", 120, extra=T1), hist("c02", 20), hist("c14", 8, extra=T1)],
         "thorough": [hist("c02", 1200, "thorough", extra=T1), hist("c02", 300, "thorough")],
         "counts": ["C02", "C01"],
     },
@@ -62,7 +62,7 @@ SCENARIOS = {
         "modules": ["C03", "Reachable", "C03Bq", "C03Sorted"],
         "theorems": ["C03_reported_sorted", "C03_reported_sorted_scores", "C03_by_item_eq_by_vector_bq", "C03_by_item_eq_by_vector_reachable", "C03_total_reachable", "C03_filter_exact_reachable", "C03_monotone_reachable", "C03_wellformed", "C03_total", "C03_filter_exact", "C03_default_budget", "C03_by_item_absent",
                      "C03_by_item_present", "C03_by_item_eq_by_vector", "C03_prefix", "C03_monotone", "C03_budget_le"],
-        "quick": [hist("c03", 50, extra=T1)],
+        "quick": [hist("c03", 100, extra=T1)],
         "thorough": [hist("c03", 1000, "thorough", extra=T1), hist("c03", 200, "thorough")],
         "counts": ["C03"],
     },
@@ -70,7 +70,7 @@ SCENARIOS = {
         "modules": ["C07", "C07Nns"],
         "theorems": ["C07_answers_nns", "C07_answers_build_nns", "C07_answers_nns_reachable", "C07_fuel_mono", "C07_prefix_index", "C07_prefix_kind", "C07_range", "C07_frame_add", "C07_frame_append", "C07_frame_del",
                      "C07_frame_clear", "C07_frame_prepare", "C07_frame_build", "C07_answers", "C07_dump_build"],
-        "quick": [hist("c07", 50, extra=T1), hist("c07", 10), hist("c18", 20, extra=T1)],
+        "quick": [hist("c07", 120, extra=T1), hist("c07", 20), hist("c18", 30, extra=T1)],
         "thorough": [hist("c07", 1200, "thorough", extra=T1), hist("c07", 300, "thorough")],
         "counts": ["C07"],
     },
@@ -135,7 +135,7 @@ SCENARIOS = {
     "C13": {
         "theorems": ["C13_unique", "C13_unique_log", "C13_full", "C13_full_step", "C13_counter", "C13_sequential", "C13_fresh_supply",
                      "C13_fresh_gen"],
-        "quick": [{"name": "ids", "args": ["ids", "--seed", "{seed}"]}, hist("c13", 30)],
+        "quick": [{"name": "ids", "args": ["ids", "--seed", "{seed}"]}, hist("c13", 60)],
         "thorough": [{"name": "ids", "args": ["ids", "--seed", "{seed}", "--tier", "thorough"], "timeout": 3000},
                      hist("c13", 500, "thorough")],
         "counts": ["C13", "C01"],
@@ -155,7 +155,7 @@ SCENARIOS = {
     "C15": {
         "modules": ["C15", "C15Build", "Unconditional"],
         "theorems": ["C15_capacity_all_histories", "C15_root_count", "C15_single", "C15_capacity", "C15_requested", "C15_auto", "C15_auto_cases", "C15_cap"],
-        "quick": [hist("c15", 60, extra=T1)],
+        "quick": [hist("c15", 200, extra=T1)],
         "thorough": [hist("c15", 1500, "thorough", extra=T1), hist("c15", 300, "thorough")],
         "counts": ["C15"],
     },
@@ -170,7 +170,7 @@ SCENARIOS = {
         "modules": ["C18", "C18Build"],
         "theorems": ["C18_build_after_change_reachable", "C18_build_right_after_change_reachable", "C18_needs_build_after_change", "C18_needs_build_until_built", "C18_change_keeps_reachable", "C18_routed_after_change_reachable", "C18_same", "C18_change", "C18_f32_to_f32", "C18_to_bq", "C18_from_bq", "C18_old_metric_refused",
                      "C18_old_metric_refused_after_build"],
-        "quick": [hist("c18", 49, extra=T1)],
+        "quick": [hist("c18", 98, extra=T1)],
         "thorough": [hist("c18", 980, "thorough", extra=T1)],
         "counts": ["C18", "C01", "C02"],
     },
@@ -186,7 +186,7 @@ SCENARIOS = {
     },
     "C19": {
         "theorems": ["C19_dim_add", "C19_dim_append", "C19_dim_query", "C19_append", "C19_del_absent", "C19_needBuild_unchanged"],
-        "quick": [hist("c19", 60, extra=T1)],
+        "quick": [hist("c19", 150, extra=T1)],
         "thorough": [hist("c19", 1000, "thorough", extra=T1)],
         "counts": ["C19"],
     },
@@ -195,7 +195,7 @@ SCENARIOS = {
         "theorems": ["C16_roaring_roundtrip", "C16_val_roundtrip", "C16_node_roundtrip", "C16_meta_roundtrip", "C16_vec_roundtrip",
                      "C16_roaring_size", "C16_roaring_offsets", "C16_layout", "C16_key_len", "C16_key_order", "C16_key_roundtrip", "C16_key_inj",
                      "C16_nodeid_roundtrip", "C16_version_roundtrip"],
-        "quick": [{"name": "keys", "args": ["keys", "--seed", "{seed}"]}, hist("c16", 25, extra=["--threads", "1"])] + FIXTURES,
+        "quick": [{"name": "keys", "args": ["keys", "--seed", "{seed}"]}, hist("c16", 60, extra=["--threads", "1"])] + FIXTURES,
         "thorough": [{"name": "keys", "args": ["keys", "--seed", "{seed}", "--tier", "thorough"]}, hist("c16", 300, "thorough", extra=["--threads", "1"])] + FIXTURES,
         "nontrivial": "builds_splits",
         "counts": ["C16"],
